@@ -42,10 +42,7 @@ ASSUMPTIONS = ['which static kind a composed view type gets is decided by C++ me
                'tied to them by comparing the predicted with the printed static knowledge for every generated program of the modelled operations',
                'instances are restricted to positive extents and to arguments NumPy accepts (invalid arguments are C15)',
                'kind combinations the unchanged library cannot compile are excluded (harness/c11_uncompilable.txt)']
-PARTIAL = ['matmul of two operands of CONSTANT shape has no Lean transfer (the type reports fixed_size = product of the result shape and a different '
-           'bounded_size = product of the operands\' sizes, a pair the abstract domain cannot hold): those instances are checked against the run-time '
-           'objects and NumPy only',
-           'no Lean transfer function (static knowledge and eval result checked against run-time objects and NumPy for every leaf kind, depth 1): '
+PARTIAL = ['no Lean transfer function (static knowledge and eval result checked against run-time objects and NumPy for every leaf kind, depth 1): '
            'eye, tri, tril/triu, max_pool2d/avg_pool2d, resize, sliding_window, compress, outer',
            'where_static_sound excludes the operand-type class whereTripled (known finding C11.where-tripled-fixed-size, where_counterexample)',
            'the eval resolver model covers the default resolver with context None and no caller-supplied output (eval.hpp:706-879); the older '
@@ -66,8 +63,8 @@ MANIFEST = dict(
           'compared with the compiler-computed traits on every generated program. Open finding C11.where-tripled-fixed-size: view::where inherits the decorator '
           'default that ADDS the sizes of its three broadcast operands; when the broadcast size is a compile-time constant but the shape is not, fixed_size_v is '
           '3x the real size and eval returns garbage (where_counterexample; repair in fixes/C11-where-size-of-broadcast-operand.diff); where_static_sound holds '
-          'outside that class. matmul of two constant-shape operands reports fixed_size 4 next to bounded_size 36 (sound, but not representable in the '
-          'abstract domain): checked against objects and NumPy only. Three metafunctions that read the maxima of a clipped shape as its extents '
+          'outside that class. matmul of two constant-shape operands reports fixed_size 4 next to bounded_size 36 (sound; SizeK.knownB). '
+          'Three metafunctions that read the maxima of a clipped shape as its extents '
           '(broadcast_shape, shape_take, shape_squeeze) were found earlier and repaired (fixes/C11-*.diff). Kind combinations that do not compile are excluded '
           '(harness/c11_uncompilable.txt).'),
     technique='Lean 4 soundness proof of an abstract interpretation + differential correspondence on generated kind-matrix translation units')
@@ -160,8 +157,6 @@ def judge_impl_oracle(impl, oracle):
 
 STATIC_KEYS = ('sk', 'fs', 'fd', 'fz', 'bd', 'bz')
 RESULT_KEYS = ('rk', 'rfz', 'rbz')
-# the one combination the Lean model declines (see PARTIAL): matmul of two constant-shape operands
-NO_MODEL = 'M unsupported:matmul-const-const'
 
 
 def _who(a):
@@ -173,7 +168,7 @@ def cmp(a, b):
     if (ka, kb) == ('I', 'T'):
         return judge_impl_oracle(a, b) in ([], ['refused'])
     if (ka, kb) == ('I', 'M'):
-        if a == 'nothing' or b == NO_MODEL:
+        if a == 'nothing':
             return True
         if not a.startswith('ok ') or not b.startswith('M sk='):
             return False
@@ -181,8 +176,6 @@ def cmp(a, b):
         # static knowledge of the view type, run-time shape, and the container chosen by the eval resolver
         return all(fa[k] == fb[k] for k in STATIC_KEYS) and fa['shape'] == fb['shape'] and all(fa[k] == fb[k] for k in RESULT_KEYS)
     if (ka, kb) == ('M', 'T'):
-        if a == NO_MODEL:
-            return True
         if not a.startswith('M sk='):
             return False
         fa, fb = fields(a), fields(b)
